@@ -103,3 +103,32 @@ Fixpoint trim_end (s : bytes) : bytes :=
   end.
 
 Definition display (n : node) : bytes := trim_end (debug_node n [] [] true true).
+
+(* ---- what the labels of the tree spell (C15) ---- *)
+Definition csuffix (c : option bytes) : bytes := match c with Some c => COLON :: c | None => [] end.
+Definition render_atom (a : atom) : bytes :=
+  match a with
+  | AB b => [b]
+  | AD n c => [LB] ++ [] ++ n ++ csuffix c ++ [RB]
+  | AW n c => [LB] ++ [STAR] ++ n ++ csuffix c ++ [RB]
+  end.
+Definition render_route (r : route) : bytes := concat (map render_atom r).
+
+(* the label Display would print if it did not decode literal keys lossily *)
+Definition raw_label (k : option kind) (ky : key) : bytes :=
+  match k with None => fst ky | Some _ => node_label k ky end.
+
+Fixpoint spell (lab : option kind -> key -> bytes) (n : node) (acc : bytes) {struct n} : list (bytes * info) :=
+  let sub (k : option kind) (l : list (key * node)) :=
+    flat_map (fun kc : key * node => spell lab (snd kc) (acc ++ lab k (fst kc))) l in
+  (match n_data n with Some i => [(acc, i)] | None => [] end)
+  ++ sub None (n_st n) ++ sub (Some KDC) (n_dc n) ++ sub (Some KDY) (n_dy n)
+  ++ sub (Some KWC) (n_wc n) ++ sub (Some KWI) (n_wi n) ++ sub (Some KEC) (n_ec n) ++ sub (Some KEN) (n_en n).
+
+
+(* every literal key of the tree is valid UTF-8 on its own *)
+Fixpoint keys_utf8 (n : node) : bool :=
+  let sub (l : list (key * node)) := forallb (fun kc : key * node => keys_utf8 (snd kc)) l in
+  forallb (fun kc : key * node => utf8_valid (fst (fst kc))) (n_st n)
+  && sub (n_st n) && sub (n_dc n) && sub (n_dy n) && sub (n_wc n) && sub (n_wi n) && sub (n_ec n) && sub (n_en n).
+
